@@ -135,6 +135,7 @@ def r_axis(c):
     for fn, par, node, ndim_txt in AXIS_CTORS:
         fd = m.func(fn)
         where = m.loc("pytato.array", fd)
+        fd = m.normal(fd)      # validation helpers inlined, hoisted locals propagated
         name = fn.replace("pytato.", "", 1)
         g = _guard(fd, par)
         c.check(g is not None, "R03-AXIS", name, f"{par}:guarded", where,
@@ -201,8 +202,16 @@ def r_axis(c):
                  "the node only inserts at / formats the position: ndim is admissible")
     # reductions and expand_dims validate their axes strictly
     ra = m.func("pytato.reductions._normalize_reduction_axes")
-    g = _loop_guard(ra, ra.args.args[1].arg)
-    c.check(g is not None and g[0] == "0" and g[2] == "len(shape)" and g[3], "R03-AXIS",
+    # the axes that are handed back (second component of the returned pair) are the
+    # ones that were looped over and validated; `tuple(range(ndim))` needs no check
+    ran = m.normal(ra)
+    shp = ra.args.args[0].arg
+    handed = {ast.unparse(r.value.elts[1]) for r in ast.walk(ran)
+              if isinstance(r, ast.Return) and isinstance(r.value, ast.Tuple)
+              and len(r.value.elts) == 2 and isinstance(r.value.elts[1], ast.Name)}
+    gs = [_loop_guard(ran, h) for h in sorted(handed)]
+    g = gs[0] if gs and all(x is not None and x[:4] == gs[0][:4] for x in gs) else None
+    c.check(g is not None and g[0] == "0" and g[2] == f"len({shp})" and g[3], "R03-AXIS",
             "reductions._normalize_reduction_axes", "axis:0<=axis<ndim",
             m.loc("pytato.reductions", ra),
             "reduction axes are not validated as 0 <= axis < ndim when the reduction is "
@@ -210,9 +219,10 @@ def r_axis(c):
     ed = m.func("pytato.array.expand_dims")
     from pta.pat import find
     ap_, xp_ = ed.args.args[0].arg, ed.args.args[1].arg
-    nd_ = find(ed, f"$n = {ap_}.ndim + len({xp_})")
+    edn = m.inlined(ed)      # a validation helper is seen through
+    nd_ = find(edn, f"$n = {ap_}.ndim + len({xp_})")
     ndv = nd_[0]["$n"] if len(nd_) == 1 else "?"
-    g = _loop_guard(ed, xp_)
+    g = _loop_guard(edn, xp_)
     c.check(g is not None and g[0] == f"-{ndv}" and g[2] == ndv and g[3],
             "R03-AXIS", "array.expand_dims", "ax:-ndim<=ax<ndim",
             m.loc("pytato.array", ed), "expand_dims does not validate its axes")
@@ -251,16 +261,47 @@ def splice_sites(m, modules=None):
     return out
 
 
-def _nonneg_proof(m, fd, var, site):
+def _nonneg_proof(m, fd, var, site, anywhere=False, depth=0):
     """why ``var`` is a non-negative position at ``site`` (None if unproven).
     For a negative i the splice X[:i] + X[i+1:] keeps/duplicates elements."""
+    why = _nonneg_local(m, fd, var, site, anywhere)
+    if why is not None or depth >= 2:
+        return why
+    # a private helper that splices at a position it is given: the obligation is
+    # its callers' (same module), at every call
+    params = [a.arg for a in fd.args.posonlyargs + fd.args.args + fd.args.kwonlyargs]
+    if var in params and fd.name.startswith("_") and isinstance(
+            getattr(fd, "_parent", None), ast.Module):
+        mi = m.module_of(fd)
+        whys = []
+        for g in ast.walk(mi.tree):
+            if not isinstance(g, (ast.FunctionDef, ast.AsyncFunctionDef)) or g is fd:
+                continue
+            from pta.order import _own_nodes
+            for call in _own_nodes(g):
+                if isinstance(call, ast.Call) and isinstance(call.func, ast.Name) \
+                        and call.func.id == fd.name:
+                    bind = m._bind_args(call, fd)
+                    a = bind.get(var) if bind else None
+                    if not isinstance(a, ast.Name):
+                        return None
+                    w = _nonneg_proof(m, g, a.id, call, anywhere=True, depth=depth + 1)
+                    if w is None:
+                        return None
+                    whys.append(f"{g.name}: {w}")
+        if whys:
+            return "position given by the callers; " + "; ".join(whys)
+    return None
+
+
+def _nonneg_local(m, fd, var, site, anywhere=False):
     chain = [fd]
     p = m.enclosing_function(fd)
     while p is not None:
         chain.append(p)
         p = m.enclosing_function(p)
     for f in chain:
-        nested = f is not fd
+        nested = f is not fd or anywhere
         for n in ast.walk(f):
             before = nested or getattr(n, "lineno", 0) < site.lineno
             # i = something.index(...)
